@@ -166,6 +166,15 @@ def run_case(vk, case):
         has = G.has_condorcet_winner()
         if bool(cw) != bool(has) or (cw and names.idx[G.get_condorcet_winner()] != cw[0]):
             fail("condorcet-winner", f"winner by definition {cw}, has_condorcet_winner {has}")
+        # the graph's queries are pure: asking again (in any order) gives the same answers
+        again = [sorted(names.idx[c] for c in t) for t in G.dominating_tiers()]
+        has2 = G.has_condorcet_winner()
+        if again != tiers or bool(has2) != bool(has):
+            fail("graph-queries-not-repeatable", f"tiers {tiers} then {again}; has_condorcet_winner {has} then {has2}")
+        if cw:
+            w2 = run_impl(lambda: G.get_condorcet_winner())
+            if w2[0] != "ok" or names.idx[w2[1]] != cw[0]:
+                fail("graph-queries-not-repeatable", f"second get_condorcet_winner: {w2}")
         if cw:
             tags.append("condorcet-winner")
         if len(tiers[0]) > 1:
